@@ -359,6 +359,8 @@ where
     fn drop(&mut self) {
         // first, drop the inner guard
         drop(self.guard.take());
+        #[cfg(leptos_verif)]
+        crate::verif_yield("write:unlocked");
 
         // then, notify about a change
         if let Some(triggerable) = self.triggerable.as_ref() {
